@@ -137,7 +137,7 @@ func runC02(c *Ctx) {
 		c.Rule("C02.R9", "PDT", "a network rule is host-level iff every enabled option is one of the host-level options", 1)
 		kMask, okM := a.constInt("rules", "OptionHostLevelRulesOnly")
 		g := NewGate(c.P)
-		g.Inline = inlineOnly()
+		g.Inline = nil // the predicate is evaluated with everything below it expanded (option helpers, bit counts)
 		s := g.Eval(ihl)
 		u := g.U
 		f := g.ParamExprs(ihl)[0]
